@@ -112,6 +112,7 @@ def run(F, R, ctx):
         jitmodel.helper_panic_rule(F, R, "C07.j")
         jitmodel.name_table_gate_rule(F, R, "C02.n")
     slice_guard_rule(F, R)
+    arg_conversion_rule(F, R)
     # ---- c
     nat = natives(F)
     R.floor("C07.c", "native primitives", len(nat), 400)
@@ -314,3 +315,54 @@ def slice_guard_rule(F, R):
                    "the native frame (the host aborts) instead of an error value" % (fn.short(), b["line"]),
                    fn.loc(b["line"]), sample=True)
     R.floor("C07.s", "argument-derived index/slice sites in native primitives", n, 8)
+
+
+CONVERSIONS = r"\{impl (AsRefSteelVal|AsRefMutSteelVal|FromSteelVal|PrimitiveAsRef|PrimitiveAsRefMut)\b[^}]*\}::\w+$|\{impl TryFrom<&?SteelVal> for|as_underlying_type$"
+
+
+def arg_conversion_rule(F, R):
+    R.rule("C07.u", "a native primitive never unwraps the conversion of one of its arguments: in every native primitive (and the "
+                    "typed function its wrapper calls, one level), a Result<_, SteelErr> that comes from converting an "
+                    "argument-derived value (AsRefSteelVal::as_ref, AsRefMutSteelVal::as_mut_ref, FromSteelVal::from_steelval, "
+                    "…) is propagated or matched, not passed to unwrap/expect — a wrong argument type is a TypeMismatch error, "
+                    "not a host abort")
+    inner = {}
+    for fn, arg in natives(F):
+        inner[fn.name] = (fn, [arg])
+        for c in F.callees(fn, expand_unresolved=False):
+            f2 = F.fns.get(c)
+            if f2 and re.match(r"steel::(primitives|steel_vm|values|rvals)::", c) and \
+                    not re.search(r"::err_thunk$|\{impl ", c) and c not in inner:
+                inner[c] = (f2, ["_%d" % k for k in range(1, len(f2.d["in"]) + 1)])
+    n = 0
+    sites = 0
+    for name, (fn, seeds) in sorted(inner.items()):
+        uw = [(i, b) for i, b in fn.calls() if re.search(r"Result<T,E>\}::(unwrap|expect)$", b["callee"]) and
+              len(b["targs"]) > 1 and b["targs"][1] == "SteelErr"]
+        if not uw:
+            continue
+        ts = lib.tainted_locals(fn, seeds)
+        dests = {}
+        for j, c in fn.calls():
+            d = re.match(r"_\d+", c.get("dest") or "")
+            if d:
+                dests[d.group(0)] = c
+        for i, b in uw:
+            toks = lib.TOK.findall(b["args"][0]) if b["args"] else []
+            if not any(t in ts for t in toks):
+                continue
+            prod = None
+            for a in lib.alias_sources(fn, toks[0]):
+                m = re.match(r"^\(?\*?(_\d+)\)?$", a)
+                if m and m.group(1) in dests:
+                    prod = dests[m.group(1)]
+            sites += 1
+            is_conv = bool(prod) and bool(re.search(CONVERSIONS, prod["callee"])) and \
+                any(t in ts for a in prod["args"] for t in lib.TOK.findall(a))
+            R.inst("C07.u", "%s / unwrap at site of %s" % (fn.short(), lib.short_name(prod["callee"]) if prod else "?"),
+                   not is_conv,
+                   "%s unwraps the result of %s applied to an argument (line %s): calling the primitive with a value of another "
+                   "type panics inside the native frame and aborts the host" % (
+                       fn.short(), lib.short_name(prod["callee"]) if prod else "?", b["line"]), fn.loc(b["line"]),
+                   sample=True)
+    R.floor("C07.u", "unwraps of argument-derived Result<_, SteelErr> in native primitives", sites, 3)
